@@ -97,8 +97,8 @@ impl<'tcx> Cx<'tcx> {
                 for i in 0..nf {
                     let f = lay.field(&cx, i);
                     let off = lay.fields.offset(i).bytes();
-                    if f.ty != elem && f.ty.is_phantom_data() && f.size.bytes() == 0 && f.align.abi.bytes() == 1 {
-                        continue; // PhantomData-like marker
+                    if f.ty != elem && f.size.bytes() == 0 && f.align.abi.bytes() == 1 && (f.ty.is_phantom_data() || (se > 0 && !matches!(f.ty.kind(), ty::TyKind::Array(inner, _) if *inner == elem))) {
+                        continue; // a 1-aligned zero-sized marker (PhantomData, (), [(); 0], ...) occupies nothing and constrains nothing
                     }
                     let c = self.check_node(f, elem, se, ae)?;
                     if f.ty != elem && f.size.bytes() as u128 != c * se as u128 {
